@@ -1,7 +1,7 @@
 /-!
 # Binning (C17, C18): `hcipy.field.util.subsample_field`, `evaluate_supersampled`
 
-A field is its flat list of samples in hcipy order (x fastest), i.e. the C-order ravel of
+A field is its flat list of samples in hcipy order (x fastest), i.e. the C-order flatIdx of
 `field.shaped`, whose axes are `(…, y, x)`; a tensor field has the tensor indices in front
 (slowest).  `subsample_field(field, s, new_grid, statistic)` reshapes to
 `(tensor…, n_1, s, n_2, s, …)` with `(n_1, n_2, …) = new_grid.shape` and reduces over the `s`
@@ -48,6 +48,47 @@ def binND (s : Nat) : List Nat → List K → List K
     let m := fineSize s rest
     (chunks s n (chunks m (n * s) v)).flatMap fun g => binND s rest (vsum m g)
 
+/-- number of samples of the fine array for per-axis factors `ss` (same order as `dims`) -/
+def fineSizes (ss dims : List Nat) : Nat := (List.zipWith (· * ·) dims ss).foldr (· * ·) 1
+
+/-- `statistic='sum'` binning with one factor per axis (`subsample_field(field, array)`, D180): `ss`
+lists the factors in the order of `dims` (slowest axis first, i.e. the reverse of `grid.dims`). -/
+def binNDs : List Nat → List Nat → List K → List K
+  | s :: ss, n :: rest, v =>
+    let m := fineSizes ss rest
+    (chunks s n (chunks m (n * s) v)).flatMap fun g => binNDs ss rest (vsum m g)
+  | _, _, v => v
+
+/-! ### Spec: which fine samples a coarse pixel adds up (closed form of the index map)
+
+`boxSums dims ss c get` is `Σ_{r_0 < s_0} Σ_{r_1 < s_1} … get(flatIdx fine (c·s + r))`, the sum of the fine samples
+`get f` over the box of sub-pixels of the coarse pixel with multi-index `c` (slowest axis first, like `dims`
+and `ss`); `flatIdx dims c` is the flat index of `c`.  `Lemmas/Binning.lean: binNDs_getD` proves that pixel
+`flatIdx dims c` of `binNDs ss dims v` is `boxSums dims ss c v[·]`; the driver op `binpix` runs `boxSums`. -/
+
+/-- flat (C-order) index of the multi-index `c` in an array of shape `dims` -/
+def flatIdx : List Nat → List Nat → Nat
+  | [], _ => 0
+  | _ :: rest, c => c.headD 0 * size rest + flatIdx rest c.tail
+
+/-- `c` is a valid multi-index of an array of shape `dims` -/
+def InBounds : List Nat → List Nat → Prop
+  | [], _ => True
+  | n :: rest, c => c.headD 0 < n ∧ InBounds rest c.tail
+
+instance : (dims c : List Nat) → Decidable (InBounds dims c)
+  | [], _ => isTrue trivial
+  | n :: rest, c =>
+    have := instDecidableInBounds rest c.tail
+    inferInstanceAs (Decidable (c.headD 0 < n ∧ InBounds rest c.tail))
+
+/-- sum of `get` over the fine flat indices of the sub-pixels of coarse pixel `c` -/
+def boxSums : List Nat → List Nat → List Nat → (Nat → K) → K
+  | [], _, _, get => get 0
+  | _ :: rest, ss, c, get =>
+    ((List.range (ss.headD 1)).map fun r0 =>
+      boxSums rest ss.tail c.tail fun f => get ((c.headD 0 * ss.headD 1 + r0) * fineSizes ss.tail rest + f)).sum
+
 /-- the shape check `reshape` performs: the field must have exactly `fineSize` samples -/
 def binSum? (s : Nat) (dims : List Nat) (v : List K) : Option (List K) :=
   if v.length = fineSize s dims then some (binND s dims v) else none
@@ -55,6 +96,13 @@ def binSum? (s : Nat) (dims : List Nat) (v : List K) : Option (List K) :=
 /-- tensor fields: `ncomp` components stored one after the other, each binned on its own -/
 def binTensor (s : Nat) (dims : List Nat) (ncomp : Nat) (v : List K) : List K :=
   (chunks (fineSize s dims) ncomp v).flatMap (binND s dims)
+
+/-- tensor fields, literally as the code does it: *one* reshape of the whole array to
+`tensor_shape + (n_1, s_1, n_2, s_2, …)` and one reduction over the `s` axes — the tensor axes are leading
+axes of the array that are not binned (factor 1).  `Lemmas/Binning.lean: binTensorL_eq` proves that this is
+component-wise binning. -/
+def binTensorL (ss dims tshape : List Nat) (v : List K) : List K :=
+  binNDs (tshape.map (fun _ => 1) ++ ss) (tshape ++ dims) v
 
 def binTensor? (s : Nat) (dims : List Nat) (ncomp : Nat) (v : List K) : Option (List K) :=
   if v.length = ncomp * fineSize s dims then some (binTensor s dims ncomp v) else none
@@ -67,6 +115,10 @@ variable {K : Type} [Add K] [Zero K] [Mul K] [Div K] [NatCast K]
 /-- `statistic='mean'` on a regular grid: the sum divided by the number of sub-pixels `s^d`. -/
 def binMean (s : Nat) (dims : List Nat) (v : List K) : List K :=
   (binND s dims v).map (· / ((s ^ dims.length : Nat) : K))
+
+/-- `statistic='mean'` with per-axis factors (regular grids): the sum divided by `Π ss` -/
+def binMeans (ss dims : List Nat) (v : List K) : List K :=
+  (binNDs ss dims v).map (· / ((ss.foldr (· * ·) 1 : Nat) : K))
 
 /-- `statistic='mean'` on a non-regular grid: weighted mean with the grid weights `w`. -/
 def binWMean (s : Nat) (dims : List Nat) (v w : List K) : List K :=
